@@ -214,7 +214,8 @@ def render(src, v, shape):
         "gram1 = generated_source('one.c', 'gram1.y', options=[{}])".format(
             r('-DY17O=' + v['P17o'])),
     ] if not shape.get('yacc_one_first', True) else []) + [
-        "vprog2 = executable('prog2', ['main2.c'], compile_options={}, "
+        "vprog2 = executable('prog2', ['main2.c'], "
+        "pch=precompiled_header(file='pre.h'), compile_options={}, "
         "link_options={})".format(
             r(strquote('-DC8A=' + v['P8a']) + ' ' +
               strquote_min('-DC8B=' + v['P8b'])),
@@ -247,7 +248,7 @@ def render(src, v, shape):
     ]
     sandbox.write_file(os.path.join(src, 'build.bfg'), '\n'.join(lines) + '\n')
     for f in ('main.c', 'main2.c', 'lib.c', 'shl.c', 'vshl.c', 'gram.y',
-              'gram1.y'):
+              'gram1.y', 'pre.h'):
         sandbox.write_file(os.path.join(src, f), 'int x;\n')
     os.makedirs(os.path.join(src, v['P13i']), exist_ok=True)
     os.makedirs(os.path.join(src, v['P13l']), exist_ok=True)
@@ -521,6 +522,7 @@ OWNERS = {
     'libvshl.so.1.2.3': GLOBAL_LINK | {'P9v'},
     './gram.tab.c': {'P15y', 'P17g', 'P17y'},
     './one.c': {'P15y', 'P17g', 'P17o'},
+    'pre.h.gch': GLOBAL_COMPILE,
     'prog2.int/main2.o': GLOBAL_COMPILE | {'P8a', 'P8b'},
     'libslib.int/lib.o': GLOBAL_COMPILE,
     'libshl.int/shl.o': GLOBAL_COMPILE,
@@ -532,12 +534,20 @@ OWNERS = {
 }
 
 
+# the file each compile step is told to compile (the word after -c)
+SOURCES = {'prog.int/main.o': '@ROOT@/src/main.c',
+           'prog2.int/main2.o': '@ROOT@/src/main2.c',
+           'libslib.int/lib.o': '@ROOT@/src/lib.c',
+           'libshl.int/shl.o': '@ROOT@/src/shl.c',
+           'libvshl.int/vshl.o': '@ROOT@/src/vshl.c',
+           'iprog.int/main2.o': '@ROOT@/src/main2.c',
+           'pre.h.gch': '@ROOT@/src/pre.h'}
 LINK_LIBS = {'prog': {'./libslib.a', './libshl.so'}, 'prog2': set(),
              'libshl.so': set(), 'iprog': set(), 'libvshl.so.1.2.3': set()}
 # literal option words the script gives to a step, with multiplicity (the
 # same word may be given globally and per target: both must arrive)
 WORDS = {out: {'-Xpreprocessor': 2} for out in
-         ('prog2.int/main2.o', 'libslib.int/lib.o', 'libshl.int/shl.o',
+         ('prog2.int/main2.o', 'pre.h.gch', 'libslib.int/lib.o', 'libshl.int/shl.o',
           'iprog.int/main2.o', 'libvshl.int/vshl.o')}
 WORDS['prog.int/main.o'] = {'-Xpreprocessor': 3}
 WORDS['./gram.tab.c'] = {'--defines=gram.tab.h': 1, './gram.tab.c': 1}
@@ -575,6 +585,13 @@ def ownership_violation(backend, shape):
                             '{} but the script gives it {} (argv {!r})'
                             .format(out, sorted(libs),
                                     sorted(LINK_LIBS[out]), inv['argv']))
+            if out in SOURCES:
+                got_src = inv['argv'][inv['argv'].index('-c') + 1] \
+                    if '-c' in inv['argv'][:-1] else None
+                if got_src != SOURCES[out]:
+                    return ('step producing {!r} was told to compile {!r} '
+                            'but the script names {!r} (argv {!r})'.format(
+                                out, got_src, SOURCES[out], inv['argv']))
             for w, n in WORDS.get(out, {}).items():
                 if inv['argv'].count(w) != n:
                     return ('step producing {!r} received the word {!r} {} '
